@@ -320,8 +320,9 @@ class _VolSpecMixin:
 @register
 class CompressedMortonCode(Contract, _VolSpecMixin):
     target = SB + "ShardVolumeSpec.compressed_morton_code"
-    props = ("C09", "C05", "C04")
+    props = ("C09",)
     path_budget = 400
+    timeout_ms = 240000
 
     def configs_for(self, tier):
         nb = _nb_thorough() if tier == "thorough" else _nb_quick()
@@ -550,7 +551,7 @@ def smax1(v):
 @register
 class GetCmc(Contract, _VolSpecMixin):
     target = SB + "ShardVolumeSpec.get_cmc"
-    props = ("C09", "C05")
+    props = ("C09",)
 
     def setup(self, c, cfg):
         obj = self.mk_volspec(c, 21)
